@@ -73,6 +73,7 @@ class ByteChanSpec(Spec):
     p_control = 0.10
 
     def setup(self, verif_seed, tier):
+        R.use_real_levels()
         self.verif_seed = verif_seed
         self.pool = W.config_pool(verif_seed, "A", POOL_THOROUGH if tier == "thorough" else POOL_QUICK)
 
